@@ -367,7 +367,7 @@ def run(ctx):
             ctx.finish(rule="stream sizes overridden by environment: floors not applicable", evaluations=len(op_lines),
                        distinct=len(distinct))
             return 2
-        if low:
+        if low and not ctx.violations:
             ctx.say("GENERATOR-BELOW-FLOOR", ", ".join(low))
             ctx.finish(rule="generator floors not met", evaluations=len(op_lines), distinct=len(distinct))
             return 2
